@@ -44,13 +44,14 @@ import (
 func init() { reg.Register("C03", Run) }
 
 type outcome struct {
-	prog      *schema.Prog
-	sig, what string // failure, if any
-	discard   string // specification-side problem: program not judged
-	disagree  bool   // a differing output was examined
-	libText   string
-	specText  string
-	kinds     []string
+	prog        *schema.Prog
+	sig, what   string // failure, if any
+	discard     string // specification-side problem: program not judged
+	disagree    bool   // a differing output was examined
+	skippedExec bool   // executable, but the expected exit status is ambiguous (124)
+	libText     string
+	specText    string
+	kinds       []string
 }
 
 var reOpcode = regexp.MustCompile(`(?:= |^\s*)(?:tail |notail |musttail )?([a-z_]+)`)
@@ -222,7 +223,10 @@ func evaluate(tabs *schema.Tables, p *schema.Prog, full bool) (o outcome) {
 			return
 		}
 	}
-	if p.Exec {
+	if p.Exec && p.Want == 124 {
+		// llvmoracle.Lli cannot tell exit status 124 from a timeout of its `timeout` wrapper
+		o.skippedExec = true
+	} else if p.Exec {
 		got, ok, diag := llvmoracle.Lli(o.libText)
 		if !ok || got != p.Want {
 			// is the reference right? run the template rendering
@@ -260,15 +264,16 @@ func kindsOf(p *schema.Prog) []string {
 }
 
 type stats struct {
-	mu        sync.Mutex
-	programs  int
-	discards  map[string]int
-	disagree  int
-	kinds     map[string]int
-	exec      int
-	execUB    int
-	byFam     map[string]int
-	discardEx []string
+	mu         sync.Mutex
+	programs   int
+	discards   map[string]int
+	disagree   int
+	kinds      map[string]int
+	exec       int
+	execUB     int
+	skipped124 int
+	byFam      map[string]int
+	discardEx  []string
 }
 
 func runAll(rep *mbt.Report, tabs *schema.Tables, progs []schema.Prog, full func(p *schema.Prog) bool, st *stats) {
@@ -293,8 +298,11 @@ func runAll(rep *mbt.Report, tabs *schema.Tables, progs []schema.Prog, full func
 		for _, k := range kindsOf(p) {
 			st.kinds[k]++
 		}
-		if p.Exec {
+		if p.Exec && !o.skippedExec {
 			st.exec++
+		}
+		if o.skippedExec {
+			st.skipped124++
 		}
 		if p.UB {
 			st.execUB++
@@ -391,7 +399,7 @@ func Run(tier, replay string) {
 	// executable integer programs: exhaustive at depth 1 over boundary constants
 	consts := map[string]string{"ExecWidths": "{1, 8, 32}"}
 	if thorough {
-		consts = map[string]string{"ExecWidths": "{1, 8, 16, 32, 64}"}
+		consts = map[string]string{"ExecWidths": "{1, 8, 16, 32, 64}", "BoundarySmall": "FALSE"}
 	}
 	var exec1 []schema.Prog
 	if on("exec") {
@@ -409,7 +417,7 @@ func Run(tier, replay string) {
 	// random behaviours: deeper integer programs and mixes of all context-free kinds
 	nExec, nMix := 100, 80
 	if thorough {
-		nExec, nMix = 1200, 500
+		nExec, nMix = 1500, 600
 	}
 	if on("execsim") {
 		execR := tlcProgs(rep, mbt.TLCOpts{Cfg: "BuildExecSim.cfg", Simulate: fmt.Sprintf("num=%d", nExec), Depth: 7})
@@ -443,6 +451,7 @@ func Run(tier, replay string) {
 	rep.Extra["programs_by_family"] = st.byFam
 	rep.Extra["executed_programs"] = st.exec
 	rep.Extra["programs_with_undefined_behaviour_not_executed"] = st.execUB
+	rep.Extra["programs_not_executed_expected_status_124_ambiguous_with_timeout"] = st.skipped124
 	rep.Extra["discarded_spec_errors"] = st.discards
 	rep.Extra["discarded_examples"] = st.discardEx
 	rep.Extra["kinds_constructed"] = len(st.kinds)
